@@ -218,8 +218,8 @@ impl Pattern {
             mk_string(g, "(?!", "|", ")")
         });
 
-        // ** -> .*
-        let p_double_star = map(tag("**"), |_| ".*".to_string());
+        // ** -> .* (also matching line breaks, which are legal in file names)
+        let p_double_star = map(tag("**"), |_| "(?s:.*)".to_string());
 
         let escaped_sep = escape(MAIN_SEPARATOR.to_string().as_str());
 
